@@ -77,18 +77,20 @@ fn extract_bracket_expr(pattern: &str) -> Option<(String, &str)> {
                 //
                 //     6. ...  A character class expression is expressed as a character class name
                 //        enclosed within bracket- <colon> ( "[:" and ":]" ) delimiters.
-                next = chars.next();
-                if let Some(delim) = next {
+                //
+                // Any other character after the '[' is an ordinary list member
+                // (or the closing bracket) and must go through the loop itself.
+                let delim = chars.clone().next();
+                if let Some(delim @ ('.' | '=' | ':')) = delim {
+                    chars.next();
                     expr.push(delim);
 
-                    if matches!(delim, '.' | '=' | ':') {
-                        let rest = chars.as_str();
-                        let mut terminator = String::from(delim);
-                        terminator.push(']');
-                        let end = rest.find(&terminator)? + 2;
-                        expr.push_str(&rest[..end]);
-                        chars = rest[end..].chars();
-                    }
+                    let rest = chars.as_str();
+                    let mut terminator = String::from(delim);
+                    terminator.push(']');
+                    let end = rest.find(&terminator)? + 2;
+                    expr.push_str(&rest[..end]);
+                    chars = rest[end..].chars();
                 }
             }
             ']' => {
